@@ -460,4 +460,22 @@ theorem dtor_mem_repair {script : List Api} (h : ∃ ib e, Api.dtor ib e ∈ scr
   obtain ⟨ib, e, hm⟩ := h
   exact ⟨ib.map Enc.repair, e.repair, List.mem_map.mpr ⟨_, hm, rfl⟩⟩
 
+/-! ## guards: with both paths guarded the Writer is the repaired writer -/
+
+theorem repairIf_true : Enc.repairIf true = Enc.repair := by funext e; rfl
+
+theorem guard_tt (a : Api) : Api.guard ⟨true, true⟩ a = a.repair := by
+  cases a <;> simp [Api.guard, Api.repair, repairIf_true]
+
+theorem guardedMachine_tt {κ : Type} (cfg : Cfg κ) (k0 : κ) (os0 : OS) (script : List Api) :
+    guardedMachine ⟨true, true⟩ cfg k0 os0 script = repairedMachine cfg k0 os0 script := by
+  have : script.map (Api.guard ⟨true, true⟩) = script.map Api.repair :=
+    List.map_congr_left fun a _ => guard_tt a
+  simp [guardedMachine, repairedMachine, this]
+
+theorem dtor_mem_guard {g : Guards} {script : List Api} (h : ∃ ib e, Api.dtor ib e ∈ script) :
+    ∃ ib e, Api.dtor ib e ∈ script.map (Api.guard g) := by
+  obtain ⟨ib, e, hm⟩ := h
+  exact ⟨ib.map (Enc.repairIf g.doWrite), e.repair, List.mem_map.mpr ⟨_, hm, rfl⟩⟩
+
 end Osmium.WriterSM
